@@ -27,9 +27,9 @@ Definition x_content (frames : list (list N)) (i : N) : list N := nthN frames i 
 Definition x_dst0 (len : N) : list N := repeat 165 (N.to_nat len).
 Definition x_rinit := rinit.
 Definition x_read (frames : list (list N)) (t : seek_table) :=
-  seekable_decompress xxh64 (x_content frames) sk_BUFF sk_NOPROGRESS_MAX t.
+  seekable_decompress xxh64 (x_content frames) sk_BUFF sk_NOPROGRESS_MAX t true.
 Definition x_read_frame (frames : list (list N)) (t : seek_table) :=
-  seekable_decompress_frame xxh64 (x_content frames) sk_BUFF sk_NOPROGRESS_MAX t.
+  seekable_decompress_frame xxh64 (x_content frames) sk_BUFF sk_NOPROGRESS_MAX t true.
 Definition x_clear_trace (s : rstate) : rstate :=
   mkR (r_cur s) (r_doff s) (d_frame s) (d_prod s) (d_fin s) (r_acc s) [].
 
